@@ -16,6 +16,7 @@ func SeqProfileFor(name string, seed int64) SeqProfile {
 	numRepr := func() string { return NumericReprs[r.Intn(len(NumericReprs))] }
 	switch name {
 	case "c01": // value fidelity: every kind and repr, late columns, all capacities, several blocks
+		p.PDropCol = 0.6
 		p.Cols = []ColDesc{
 			{"a", "int", "add", numRepr()},
 			{"t", "tok", "", numRepr()},
@@ -36,6 +37,7 @@ func SeqProfileFor(name string, seed int64) SeqProfile {
 		p.PRollback, p.PFailIns, p.PObserve = 0.35, 0.3, 0.3
 		p.Replica = true
 	case "c03": // indexes: several per column, created and dropped at any point, on primary and replica
+		p.PDropCol = 0.6
 		p.Cols = []ColDesc{{"a", "int", []string{"add", "affine"}[r.Intn(2)], []string{"int", "int32", "int64", "uint64", "float64", "record"}[r.Intn(6)]},
 			{"s", "str", []string{"", "concat"}[r.Intn(2)], "string"}, {"b", "bool", "", "bool"}, {"e", "enum", "", "enum"}}
 		p.Idx = []IdxDesc{{"big", "a", "ge", 5}, {"small", "a", "lt", 3}, {"sa", "s", "eq", []int{0}}, {"on", "b", "true", 0}, {"e1", "e", "eq", "e1"}}
@@ -54,17 +56,20 @@ func SeqProfileFor(name string, seed int64) SeqProfile {
 		p.MaxBody = 5
 		p.Replica = r.Intn(2) == 0
 	case "c16": // sorted index: small alphabet forcing duplicates, created before or after the data
+		p.PDropCol = 0.6
 		p.Cols = []ColDesc{{"s", "str", []string{"", "concat"}[r.Intn(2)], "string"}, {"a", "int", "add", "int"}}
 		p.Sorts = [][2]string{{"byS", "s"}}
 		p.SortFirst = r.Intn(2) == 0
 		p.PSchema = 0.1
 		p.PRollback, p.PFailIns = 0.05, 0
 	case "c19": // triggers: puts, merges, deletes, rollbacks; created and dropped mid-history
+		p.PDropCol = 0.6
 		p.Cols = []ColDesc{{"a", "int", []string{"add", "affine", "replace", "sat"}[r.Intn(4)], numRepr()}, {"s", "str", []string{"", "concat"}[r.Intn(2)], "string"}}
 		p.Trigs = [][2]string{{"ta", "a"}, {"ts", "s"}, {"ta2", "a"}}
 		p.PSchema = 0.2
 		p.PRollback, p.PFailIns = 0.2, 0.1
 	case "c07": // snapshot -> restore -> continue cycles over all kinds, indexes, sorted index, several blocks
+		p.PDropCol = 0.6
 		p.Cols = []ColDesc{{"a", "int", "add", numRepr()}, {"s", "str", []string{"", "concat"}[r.Intn(2)], "string"}, {"b", "bool", "", "bool"},
 			{"e", "enum", "", "enum"}, {"t", "tok", "", numRepr()}, {"y", "int", "add", "record"}}
 		p.Idx = []IdxDesc{{"big", "a", "ge", 5}, {"on", "b", "true", 0}, {"e1", "e", "eq", "e1"}}
